@@ -7,13 +7,13 @@ def batch(path, out, size):
     by_env = {}
     for line in open(path):
         s = json.loads(line)
-        by_env.setdefault(s["env"], []).append(s)
+        by_env.setdefault((s["env"], s.get("initForm", "plain")), []).append(s)
     n = 0
     with open(out, "w") as f:
-        for env, items in sorted(by_env.items()):
+        for (env, form), items in sorted(by_env.items()):
             for i in range(0, len(items), size):
                 chunk = items[i:i + size]
-                f.write(json.dumps({"env": env, "envv": chunk[0]["envv"], "eqs": [{"tree": c["tree"], "expect": c["expect"]} for c in chunk]}, separators=(",", ":")) + "\n")
+                f.write(json.dumps({"env": env, "initForm": form, "envv": chunk[0]["envv"], "eqs": [{"tree": c["tree"], "expect": c["expect"]} for c in chunk]}, separators=(",", ":")) + "\n")
                 n += 1
     return n
 
